@@ -45,6 +45,15 @@ reg("C20",
     "expansion recorder + equality-per-input monitor across processes and orders", "DESIGN.md §4 C20")
 
 
+reg("C16",
+    "Exploration, exhaustive within a bound: every parameter pattern list up to length 3 over the property's alphabet (plus "
+    "length 4 in the thorough tier and sampled longer lists) is compiled and run; the recorder shows the generated method's "
+    "parameter names (one plain identifier each, pairwise distinct, not the fn's name, prescribed names kept), the compiler run "
+    "shows the case compiles, and the trace monitor shows positional forwarding (C01 oracle).",
+    "Binding names in the enumerated lists are position-unique except for the deliberately colliding ones; longer lists are sampled.",
+    "bounded-exhaustive enumeration + recorder naming oracle + runtime trace differential", "DESIGN.md §4 C16")
+
+
 def manifest():
     hooks_commits = subprocess.run(["git", "-C", "/repo", "log", "--format=%H", "--grep=^verif hook"],
                                    stdout=subprocess.PIPE, text=True).stdout.split()
